@@ -17,6 +17,15 @@ impl MyIntf {
 #[verifier::external_body]
 pub fn multicast_on_intf(packet: &[u8], if_name: &str, if_index: u32, if_addr: &IfAddr, socket: &PktInfoUdpSocket, port: u16) { unimplemented!() }
 
+// builds the announcement of `info` for `intf` (prepare_announce, unit records) and multicasts it; assumed here
+#[verifier::external_body]
+pub fn announce_service_on_intf(dns_registry: &mut DnsRegistry, info: &ServiceInfo, intf: &MyIntf, sock: &PktInfoUdpSocket, port: u16) -> (r: MyResult<bool>)
+    ensures final(dns_registry).announce_log() == old(dns_registry).announce_log().push((info.ident(), *intf, r == Ok::<bool, InternalError>(true))),
+{ unimplemented!() }
+// Vec::retain over try_send; only the monitor list changes
+#[verifier::external_body]
+pub fn notify_monitors(monitors: &mut Vec<Sender<DaemonEvent>>, event: DaemonEvent) { unimplemented!() }
+
 // only these parts of the daemon state differ between a and b
 pub open spec fn same_except_sched(a: Zeroconf, b: Zeroconf) -> bool {
     a == (Zeroconf { retransmissions: a.retransmissions, timers: a.timers, ..b })
